@@ -112,7 +112,12 @@ class RemPlugin(PrimitiveLeafPlugin):
 
         aval = getattr(x_var, "aval", None)
         dtype: np.dtype[Any] = np.dtype(getattr(aval, "dtype", np.float32))
-        out_shape = tuple(getattr(aval, "shape", ()))
+        # lax.rem broadcasts size-1 axes of rank-equal operands: the result shape
+        # is the output aval's, not necessarily the left operand's.
+        out_aval = getattr(out_var, "aval", None)
+        out_shape = tuple(
+            getattr(out_aval if out_aval is not None else aval, "shape", ())
+        )
 
         x_dtype_enum = getattr(getattr(x_val, "type", None), "dtype", ir.DataType.FLOAT)
 
